@@ -364,10 +364,10 @@ fn gen_ingress(rs: u64, _index: u64) -> Scenario {
     let ty = "_link._tcp.local.";
     s.op(50, Op::Browse { d: 0, ty: ty.into(), slot: 10 });
     // A on eth0 only, B on eth1 only, C multi-homed (same names, one address per link)
-    let a = instance_recs(ty, "only0", "hosta.local.", 1, &["192.168.1.50"], if dual0 { &["fe80::1:32"] } else { &[] }, vec![0], 4500, 4500);
-    let b = instance_recs(ty, "only1", "hostb.local.", 2, &["10.0.0.50"], &[], vec![0], 4500, 4500);
-    let c0 = instance_recs(ty, "both", "hostc.local.", 3, &["192.168.1.60"], &[], vec![0], 4500, 4500);
-    let c1 = instance_recs(ty, "both", "hostc.local.", 3, &["10.0.0.60"], &[], vec![0], 4500, 4500);
+    let a = instance_recs(ty, "only0", "HostA.local.", 1, &["192.168.1.50"], if dual0 { &["fe80::1:32"] } else { &[] }, vec![0], 4500, 4500);
+    let b = instance_recs(ty, "only1", "Host-B.local.", 2, &["10.0.0.50"], &[], vec![0], 4500, 4500);
+    let c0 = instance_recs(ty, "both", "Living-Room-TV.local.", 3, &["192.168.1.60"], &[], vec![0], 4500, 4500);
+    let c1 = instance_recs(ty, "both", "Living-Room-TV.local.", 3, &["10.0.0.60"], &[], vec![0], 4500, 4500);
     let t0 = 300 + rng.below(300);
     s.op(t0, Op::PeerSend { p: 0, v4: true, sport: 5353, msg: announce(&a.all()), to: Dest::Mcast });
     s.op(t0 + 40, Op::PeerSend { p: 1, v4: true, sport: 5353, msg: announce(&b.all()), to: Dest::Mcast });
